@@ -43,7 +43,7 @@ var $ifaceKeyFor = x => {
         return 'nil';
     }
     var c = x.constructor;
-    return c.string + '$' + c.keyFor(x.$val);
+    return c.id + '$' + c.keyFor(x.$val);
 };
 
 var $identity = x => { return x; };
@@ -427,10 +427,10 @@ var $methodSet = typ => {
         var mset = [];
 
         current.forEach(e => {
-            if (seen[e.typ.string]) {
+            if (seen[e.typ.id]) {
                 return;
             }
-            seen[e.typ.string] = true;
+            seen[e.typ.id] = true;
 
             if (e.typ.named) {
                 mset = mset.concat(e.typ.methods);
@@ -729,8 +729,8 @@ var $assertType = (value, type, returnTuple) => {
     } else if (!isInterface) {
         ok = value.constructor === type;
     } else {
-        var valueTypeString = value.constructor.string;
-        ok = type.implementedBy[valueTypeString];
+        var valueTypeID = value.constructor.id;
+        ok = type.implementedBy[valueTypeID];
         if (ok === undefined) {
             ok = true;
             var valueMethodSet = $methodSet(value.constructor);
@@ -747,14 +747,14 @@ var $assertType = (value, type, returnTuple) => {
                 }
                 if (!found) {
                     ok = false;
-                    type.missingMethodFor[valueTypeString] = tm.name;
+                    type.missingMethodFor[valueTypeID] = tm.name;
                     break;
                 }
             }
-            type.implementedBy[valueTypeString] = ok;
+            type.implementedBy[valueTypeID] = ok;
         }
         if (!ok) {
-            missingMethod = type.missingMethodFor[valueTypeString];
+            missingMethod = type.missingMethodFor[valueTypeID];
         }
     }
 
